@@ -413,7 +413,10 @@ def walk(fa, targets, avoid=(), cap=20000):
                 continue
             alts = [[]]
             if nd.kind == "test" and l in ("T", "F") and not loop:
-                alts = cases(fa, nd.ast, n, l == "T")
+                memo = fa.__dict__.setdefault("_pm_cases", {})
+                if (n, l) not in memo:
+                    memo[(n, l)] = cases(fa, nd.ast, n, l == "T")
+                alts = memo[(n, l)]
             for add in alts:
                 have = {(x.text, x.pos) for x in lits if x.live}
                 if any((a.text, not a.pos) in have for a in add):
